@@ -23,8 +23,11 @@ def check_C16(run):
     else:
         stage_mc_lexer(run, 4, SUB_SYMS, 6)
         stage_mc_lexer(run, 3, FULL_SYMS, 4, name="mc_lexer_full")
-        res, tot, hang = stage_lex_enum(run, 4, FULL_SYMS)
+        # (length 4 over all 57 symbols is 10.5M inputs x 2 schedules and does not fit the stage time limit on a busy machine)
+        res, tot, hang = stage_lex_enum(run, 3, FULL_SYMS)
         stage_judge_lexer(run, res, "C16")
+        res, tot, hang = stage_lex_enum(run, 4, MID_SYMS, name="lex_enum_mid")
+        stage_judge_lexer(run, res, "C16", name="judge_lexer_mid")
         res, tot, hang = stage_lex_enum(run, 6, SUB_SYMS_SMALL, name="lex_enum_sub")
         stage_judge_lexer(run, res, "C16", name="judge_lexer_sub")
         res, tot, hang = stage_lex_enum(run, 0, FULL_SYMS, random=1000000, rlen=64, name="lex_random")
